@@ -305,7 +305,7 @@ def run(ck):
     return ck.finish(cov, assumptions=[
         "model hand-written (coq/Term/*.v); tied to ast/ast.go and ast/serde.go by differential comparison only",
         "strconv.FormatFloat, time.Format(RFC3339Nano), time.Duration.String enter the model as per-case tables observed from Go; "
-        "print_inj assumes: finite floats format as -?digits[.digits] injectively, time / duration texts are injective and contain no quote or backslash (sampled by runner c08_lib)",
+        "print_inj assumes: finite floats format as -?digits[.digits] injectively, time / duration texts are injective and contain no quote (sampled by runner c08_lib, which also rejects a backslash)",
         "strings are valid UTF-8; maps / structs in the main stream have pairwise distinct key hashes (finding N9 probe otherwise)",
         "equal hashes of unequal terms are allowed (finding F8 belongs to the store properties)"])
 
@@ -331,7 +331,9 @@ META = {
     "text": "Machine-checked theorems (coq/Props/C08.v) about a Gallina model of ast.Constant / ast.Atom as Go represents them "
             "(type tag, symbol bytes, stored hash, cons cells): Equals with its type/hash short-cut is exactly structural equality "
             "on constructor-built constants (hence an equivalence), equal terms have equal hashes and prints, printing (escapes, "
-            "decimal numbers, float/time/duration texts as library oracles) is injective on lexer-valid names and finite floats, "
+            "decimal numbers, float/time/duration texts as library oracles) is uniquely decodable and hence injective on all "
+            "constants (names, strings, byte strings, numbers, floats, times, durations, pairs, lists, maps, structs of any depth) "
+            "with lexer-valid names, valid UTF-8 strings and finite floats, and on atoms over them (print_inj, atom_print_inj), "
             "maps/structs do not depend on the order of supplied entries when key hashes are distinct. The model is tied to the "
             "code on every run by comparing String, Hash and the full Equals matrix of generated term groups (constructors and "
             "EvalExpr) with the model inside Coq, and the laws are also checked directly on Go's answers.",
